@@ -12,7 +12,13 @@ def main(tier, seed):
     ck = Check("C09", tier, seed)
     tf = use_impl()
     rng = random.Random(seed)
-    b = ck.build_proofs("Prop_C09", extra_targets=["Run.vo"])
+    refused = []
+
+    def regen():
+        # the identity / operator table of query objects is regenerated from queries.py and proved equal to the model's (proofs/QueryGenP.v)
+        rc, out = sh([PY, str(VERIF / "harness" / "py2coq_query.py"), str(REPO / "tinyflux" / "queries.py"), str(COQ / "gen" / "QueryGen.v")], timeout=60)
+        refused.extend(l for l in out.splitlines() if l.startswith("REFUSED"))
+    b = ck.build_proofs("Prop_C09", pre=regen, extra_targets=["Run.vo"])
     univ = qtie.universe()
     rpts = [M.real_point(tf, p) for p in univ]
     vocab, raising = qtie.vocabulary()
@@ -82,6 +88,8 @@ def main(tier, seed):
                       "what_no_longer_checks": "correspondence Query.eval (theorems C09_*) vs SimpleQuery/CompoundQuery.__call__",
                       "disagreeing_queries": len(mism)}, no_input=True)
     ck.cov = {
+        "translator": {"source": "tinyflux/queries.py: every place a query object gets its _hash key, its test operator, its == -> coq/gen/QueryGen.v (regenerated on this run)",
+                       "refused": refused, "equivalence_theorems": "enc_eqb, gen_qhash_eq, gen_qeq_eq, gen_tables (proofs/QueryGenP.v)"},
         "obligations": b["obligations"], "discharged": b["discharged"],
         "checker_cmd": "make -C /verif/coq Prop_C09.vo Run.vo (coqc, full .vo); Print Assumptions per theorem; model evaluated with vm_compute",
         "trusted_base": TRUSTED_BASE_COMMON + ["hand model Query.v tied by correspondence", "twin table (user callables, regexes)",
